@@ -521,16 +521,16 @@ PROPERTY_INFO: Dict[str, Dict] = {
     "C18": {
         "explanation": "Static analysis (ast): the mask writer and readers must agree on bit order (symbolic "
         "normal form of the shifted bit, shape of the scanning loops); the scanning loop of subseq_segment_dist "
-        "is extracted as a finite-state transition table over all Boolean valuations and compared with the run "
-        "counter the property describes, together with its initial state, final correction and scan length.",
+        "is extracted as a finite-state transducer and the product with the reference run counter the property "
+        "describes is explored exhaustively (equivalence of the two machines), together with the scan length.",
         "decided": [
             "bit i <-> element i in writer and both readers; complete mask = 2**len - 1 (BIT-ORDER)",
-            "transition table, initial state, final correction and scan length of the run counter; -1 exactly on a foreign child bit or a longer child (SEGMENT-MACHINE)",
+            "the scanning loop, read as a finite-state transducer (state variables, initialisation, loop body, final correction), agrees with the reference run counter in every reachable state of their product: same -1 verdicts (a foreign child bit; a longer child is rejected before the scan), same final answers, for both end modes and non-empty children - whatever the state design (SEGMENT-MACHINE)",
             "the -1 conditions do not depend on the end mode (SENTINEL, producer side)",
             "no decode cache or other state between calls (SOLVER-STATELESS, MEMO-KEY); exhaustion of the child is tested with `is None`, not truthiness (NONE-SENTINEL-TRUTH)",
         ],
         "not_decided": [
-            "that the machine's output equals the number of maximal runs (induction over the scan)",
+            "that the reference run counter itself is the number of maximal runs of missing parent elements (a definition-level induction over the scan, stated in the rule's sentence)",
             "round-trip identity as a whole (value-level)",
         ],
     },
@@ -608,9 +608,6 @@ _DECIDED_ROUND4 = {
     ],
     "C17": [
         "the sparse table has enough levels for the deepest query, decided over lengths 1..64 by the analyser's own integer arithmetic (RMQ-WINDOWS level-count)",
-    ],
-    "C18": [
-        "SEGMENT-MACHINE decides equivalence of the extracted transducer with the reference run counter by exploring their product (any state design is accepted; non-empty children only)",
     ],
     "C19": [
         "toposort answers None exactly on the failed completeness test (TOPO-VERDICT); the all-orderings routine has no early stop or count limit (ENUM-NO-TRUNCATION)",
